@@ -94,12 +94,16 @@ RULES = {
     "C06": "cases = the same histories with >= 40 % refused calls; every call runs inside recover(); for every failing call a "
            "whole-pool snapshot (all public getters of all entities + raw maps) before/after must be identical, the cause "
            "(errors.Is on the sentinels, innermost typed wrapper by Unwrap) must be the documented one, and refusal must "
-           "coincide with the declarative precondition evaluated on the contents; result class compared with the Coq model",
+           "coincide with the declarative precondition evaluated on the contents; result class and state compared with the Coq model; "
+           "non-trivial = distinct history with >= 3 kinds of accepted mutators, >= 1 refusal and >= 1 accepted rename / id change / "
+           "static CAN-ID change (as for C04); the refused fraction is measured (refused_fraction) and must be >= 0.40",
 }
 
 
 def run_property(ctx, pid):
     ctx.level = "proof"
+    # floor for a non-replay run: about 70 % of the histories of the quick tier
+    ctx.min_evaluations = 300
     low = pid.lower()
     status = vlib.proof_status(pid, extra_targets=["C04/Extract.v"])
     if any("No rule to make target" in p for p in status["problems"]):
@@ -135,8 +139,23 @@ def run_property(ctx, pid):
     rc2, mlog = vlib.sh([drv, out], timeout=2400)
     m = re.search(r"CASES (\d+) STEPS (\d+) MISMATCHES (\d+)", mlog)
     mism = int(m.group(3)) if m else -1
-    kinds = re.findall(r"MISMATCH hist=\d+ step=\d+ kind=(\w+)", mlog)
-
+    mk = re.search(r"KINDS result=(\d+) state=(\d+) histories=(\d+)", mlog)
+    kind_counts = {"result": int(mk.group(1)), "state": int(mk.group(2)), "histories": int(mk.group(3))} if mk else {}
+    mc = re.search(r"COMPARED results=(\d+) states=(\d+)", mlog)
+    me = re.search(r"^END (\d+) (\d+) (\d+) (\d+)$", mlog, re.M)
+    # the driver must have processed exactly what the harness generated: a truncated trace, a driver that
+    # stopped early or compared nothing shows nothing
+    count_problems = []
+    if not me:
+        count_problems.append("the trace has no END line (truncated or not written completely)")
+    if m and mc and me:
+        want = {"cases": summ.get("cases"), "olines": summ.get("olines"), "rlines": summ.get("rlines"), "dlines": summ.get("dlines")}
+        got = {"cases": int(m.group(1)), "olines": int(m.group(2)), "rlines": int(mc.group(1)), "dlines": int(mc.group(2))}
+        endl = {"cases": int(me.group(1)), "olines": int(me.group(2)), "rlines": int(me.group(3)), "dlines": int(me.group(4))}
+        if got != want or endl != want:
+            count_problems.append("harness generated %s, END line says %s, driver processed %s" % (want, endl, got))
+    elif m and not mc:
+        count_problems.append("the driver did not report how many results / states it compared")
     # property-level failures found on the implementation
     mine = [f for f in summ["fails"] if f["prop"] == low]
     shrunk = 0
@@ -149,18 +168,22 @@ def run_property(ctx, pid):
         ctx.violation(f["sig"], "%s fails on the implementation: %s (after %d operations, last: %s)" % (pid, f["detail"], len(ops), ops[-1] if ops else "-"),
                       {"ops": ops, "detail": f["detail"], "how": "./check %s --replay <this file>" % pid})
     # model / implementation disagreement (the model is faithful also where findings are open, so no
-    # mismatch is ever explained by a finding) and driver failures are violations of their own
-    relevant = {"C04": ("state", "result"), "C05": ("state",), "C06": ("result",)}[pid]
-    rel = [k for k in kinds if k in relevant]
+    # mismatch is ever explained by a finding): ANY mismatch is a violation of all three properties,
+    # because the theorems of C04, C05 and C06 speak about the one model; driver failures and
+    # incomplete comparisons are violations of their own
     if mism < 0 or rc2 != 0:
         ctx.violation(low + "-driver-failed", "the model driver did not complete (rc=%s): %s" % (rc2, mlog[-600:]),
                       {"driver_output": mlog[-3000:]}, found_input=False)
-    elif rel:
+    elif mism != 0:
         first = re.search(r"MISMATCH.*\n.*\n.*", mlog)
-        ctx.violation(low + "-correspondence", "Coq model and implementation disagree (%s case(s), kinds %s); the theorems of "
-                      "Properties/%s.v no longer speak about this code: %s" % (mism, sorted(set(kinds)), pid, (first.group(0) if first else mlog[-600:])[:900]),
+        ctx.violation(low + "-correspondence", "Coq model and implementation disagree (%s mismatches: %s); the theorems of "
+                      "Properties/%s.v no longer speak about this code: %s" % (mism, kind_counts, pid, (first.group(0) if first else mlog[-600:])[:900]),
                       {"correspondence": "props/C04 step-by-step result/state comparison", "driver_output": mlog[:4000]},
                       found_input=bool(mine))
+    if count_problems and not (mism < 0 or rc2 != 0):
+        ctx.violation(low + "-model-compared-too-few", "; ".join(count_problems),
+                      {"driver_output": mlog[-2000:], "summary": {k: summ.get(k) for k in ("cases", "steps", "olines", "rlines", "dlines")}},
+                      found_input=False)
     samples = []
     with open(out) as f:
         for i, line in enumerate(f):
@@ -179,6 +202,8 @@ def run_property(ctx, pid):
         "rule": RULES[pid],
         "distribution": summ["hist"],
         "model_mismatches": mism,
+        "model_mismatch_kinds": kind_counts,
+        "model_compared": {"results": int(mc.group(1)), "states": int(mc.group(2))} if mc else None,
         "property_predicate_failures": sorted(f["sig"] for f in mine),
         "samples": samples,
         "exhaustive": False,
@@ -192,6 +217,9 @@ def run_property(ctx, pid):
             "NodeID/MessageID/CANID (uint32) and int modelled as unbounded Z (arguments stay in range); payload geometry abstracted by an oracle bit",
         ],
     })
+    if not ctx.replay and summ.get("refused", 0) < 0.40 * fall:
+        ctx.violation(low + "-too-few-refusals", "only %d of %d fallible calls were refused (the run must exercise >= 40 %% refusals)" % (summ.get("refused", 0), fall),
+                      {"summary": {k: summ.get(k) for k in ("fallible", "refused")}}, found_input=False)
     ctx.assumptions = [
         "theorem side conditions op_ok / op_ok2 / op_ok3: an attach is not applied to an entity or signal that already has another parent, a node has one receiving "
         "interface per message (open findings D20, D22: the harness generates these calls, they are reported as known findings, *_refuted witnesses in Properties)",
